@@ -16,7 +16,7 @@ META = {
         "a contract stub and the obligations are: right-hand side = A U entry-wise (so U is the solution), volume integral preserved",
         "extrapolate on Gauss-Legendre quad4 / hex8 regions: a multilinear symbolic nodal field is reproduced at the points (1e-9: inverse Gauss points are floats); topoints(average) = mean over attached cells, "
         "mean=True = weighted quadrature mean",
-        "SolidBody.evaluate.kirchhoff_stress / cauchy_stress with an abstract material and symbolic displacements; tools.force / tools.moment with symbolic forces and displacements; tools.save with a recording "
+        "SolidBody and SolidBodyNearlyIncompressible (fresh internal state, deformed field) .evaluate.kirchhoff_stress / cauchy_stress with an abstract material and symbolic displacements; tools.force / tools.moment with symbolic forces and displacements; tools.save with a recording "
         "stand-in for meshio.Mesh",
     ],
     "outside": ["rendering and everything else behind pyvista (ViewSolid's cell data ARE checked, with pyvista's grid replaced by a recording stand-in and LAPACK eigvalsh by a contract stub)", "log-strain view data (eigh)", "singular projection matrices", "IEEE rounding"],
@@ -154,7 +154,7 @@ def case_topoints(ctx, family):
         ctx.equal("unaveraged_block_values_keep_their_shape_and_order", np.asarray(outB).reshape(expB.shape) if np.asarray(outB).size == expB.size else outB, expB)
 
 
-def case_stresses(ctx, family, kind):
+def case_stresses(ctx, family, kind, body_kind="SolidBody"):
     m = tiny_mesh(family)
     region = REGION[family](m)
     if kind == "Field":
@@ -164,11 +164,18 @@ def case_stresses(ctx, family, kind):
     x = unknowns(ctx, field)
     install(ctx, field, x)
     umat = AbstractHyperelastic(ctx, 3)
-    body = fem.SolidBody(umat, field)
+    if body_kind == "NearlyIncompressible":
+        # fresh internal state (p = 0, J = 1) at a deformed field: det F at the quadrature points differs from the stored cell-wise J
+        body = fem.SolidBodyNearlyIncompressible(umat, field, bulk=ctx.var("bulk", 1, 50))
+    else:
+        body = fem.SolidBody(umat, field)
     tau = np.asarray(body.evaluate.kirchhoff_stress(field))
     sig = np.asarray(body.evaluate.cauchy_stress(field))
     F = np.asarray(field.extract()[0])
-    P = np.asarray(umat.gradient([F, None])[0])
+    if body_kind == "NearlyIncompressible":
+        P = np.asarray(body.results.stress[0])  # the body's own first Piola-Kirchhoff stress (material part + p dJ/dF)
+    else:
+        P = np.asarray(umat.gradient([F, None])[0])
     nq, nc = F.shape[2:]
     et = np.empty((3, 3, nq, nc), dtype=object if ctx.sym else float)
     es = np.empty((3, 3, nq, nc), dtype=object if ctx.sym else float)
@@ -381,6 +388,8 @@ def cases(tier):
     out.append(("topoints", case_topoints, {"family": "hex8"}))
     out.append(("stresses", case_stresses, {"family": "hex8", "kind": "Field"}))
     out.append(("stresses", case_stresses, {"family": "quad4", "kind": "PlaneStrain"}))
+    # (hex8 with the nearly-incompressible body: not decided within the 900 s case budget, not part of the claim)
+    out.append(("stresses", case_stresses, {"family": "quad4", "kind": "PlaneStrain", "body_kind": "NearlyIncompressible"}))
     out.append(("view_solid", case_view_solid, {"stress_type": "Cauchy"}))
     out.append(("view_solid", case_view_solid, {"stress_type": "Kirchhoff"}))
     out.append(("force_moment", case_force_moment, {"dim": 2}))
